@@ -96,6 +96,7 @@ class World:
         self.base = base_files
         self.gold_lock = threading.Lock()
         self.gold_mem = {}
+        self.compute_golden = None  # hook: (bp, toggles) -> None, computes and memoises a missing golden
 
     # ------------------------------------------------------------------ goldens
     def golden_path(self, bp, toggles):
@@ -114,6 +115,13 @@ class World:
         g["dir"] = d
         with self.gold_lock:
             self.gold_mem[key] = g
+        return g
+
+    def golden_or_compute(self, bp, toggles):
+        g = self.golden(bp, toggles)
+        if g is None and self.compute_golden:
+            self.compute_golden(bp, sorted(toggles))
+            g = self.golden(bp, toggles)
         return g
 
     def golden_bytes(self, bp, toggles, name):
@@ -189,7 +197,10 @@ def parse_trace(path, slot, proj):
             if len(parts) < 4:
                 continue
             try:
-                ops.append((parts[0], norm(" ".join(parts[1:-2])), int(parts[-2]), int(parts[-1])))
+                pth = norm(" ".join(parts[1:-2]))
+                if pth.startswith("$SLOT/out-") or pth.startswith("$SLOT/err-"):
+                    continue  # pavexc's own stdout / stderr, redirected to files by the harness
+                ops.append((parts[0], pth, int(parts[-2]), int(parts[-1])))
             except ValueError:
                 continue
     return ops, fault
@@ -427,7 +438,7 @@ class HistoryRun:
             "stderr": stderr[-6000:],
             "stderr_len": len(stderr),
             "stdout_len": len(stdout),
-            "n_errors": stderr.count("\n  × ") + (1 if stderr.startswith("  × ") else 0) + stderr.count("ERROR:\n"),
+            "n_errors": sum(1 for l in stderr.splitlines() if l.strip() == "ERROR:"),
             "documenting": sorted(set(l.split()[1] for l in stderr.splitlines()
                                       if l.strip().startswith("Documenting ") and len(l.split()) > 1)),
             "before": {k: v for k, v in before.items() if is_tracked(k)},
